@@ -139,7 +139,7 @@ func joinExpected(tag int, srcs, dsts []*Obj, nsScoped bool) []int {
 func runC09(c *Ctx) {
 	reps := 2
 	if !c.Quick() {
-		reps = 40
+		reps = 160
 	}
 	runs := 0
 	for rep := 0; rep < reps; rep++ {
